@@ -21,7 +21,7 @@ pub fn prop() -> Prop {
                PUBLIC key starts with a zero byte, rendered exactly as key generation prints them and configured as \
                private / private+public / trusted key followed by a real handshake; passwords p0..p{N} + dictionary (every length 0..=130) through \
                generate_keypair(Some(pw)) twice, two Crypto instances, handshake; all ordered pairs of 12 different passwords \
-               must be rejected. non-trivial = case reached a real handshake or a non-empty codec round trip",
+               must be rejected. Every printed public key also inside 3-entry trusted-key lists (each position) and as the own key listed next to a foreign one. non-trivial = case reached a real handshake or a non-empty codec round trip",
         run,
         replay,
     }
